@@ -71,6 +71,7 @@ def run_shard(spec, R):
     from vf.checks import c07
     from vf.gen import wass
     from vf.gen.images import rng_for
+    from vf.snapshots import snap
 
     c07.attach(R, ["c08-workload"])
     for shape in spec["shapes"]:
@@ -85,14 +86,16 @@ def run_shard(spec, R):
         dists = {}
         a, b = wass.mass_pair(rng, shape, "dense")
         m1, m2 = wass.images(darsia, a, b, h)
+        shared_defaults = {"maxiter": 5000}
+        if not R.want([list(shape)]):  # a case is a shape with all its combinations (they share options and grids)
+            continue
         for ci, (formulation, backend) in enumerate(COMBOS):
-            if not R.want([list(shape), formulation, backend]):
-                continue
             rng = rng_for(spec["seed"], "C08", 1000 + spec["shard"], 100 * spec["shapes"].index(list(shape)) + ci)
             case = {"shape": list(shape), "voxel_size": h, "formulation": formulation, "backend": backend}
             key = known_key(formulation)
             mkey = multilevel_key(formulation, backend, nc)
             opt = wass.make_options(darsia, "newton", "RAVIART_THOMAS", "CELL_BASED", formulation, backend, 0, 4)
+            opt_before = snap({k: v for k, v in opt.items() if not callable(v)})
             ok, w1 = R.guarded("formulation_usable", lambda: darsia.WassersteinDistanceNewton(grid, None, opt), key=lambda e, w: key)
             if not ok:
                 continue
@@ -213,7 +216,10 @@ def run_shard(spec, R):
                 optd = dict(opt)
                 # default tolerances; only the iteration cap is lifted (stand-alone AMG needs several hundred
                 # V-cycles on anisotropic 3-D grids; hitting the documented default cap of 100 is not judged)
-                optd["linear_solver_options"] = {"maxiter": 5000}
+                # one nested dictionary serves the amg and the cg objects of this shape, as in a script that builds its
+                # options once and only switches "linear_solver"
+                optd["linear_solver_options"] = shared_defaults
+                optd_before = snap({k: v for k, v in optd.items() if not callable(v)})
                 ok, wd = R.guarded("formulation_usable", lambda: darsia.WassersteinDistanceNewton(grid, None, optd), key=lambda e, w: key)
                 if ok:
                     for scale in (1.0, 1e-3, 1e-6, 1e-9):
@@ -225,6 +231,13 @@ def run_shard(spec, R):
                             res = float(np.linalg.norm(A @ sol - rhs)) if np.all(np.isfinite(sol)) else float("inf")
                             R.check(res <= 1e-4 * float(np.linalg.norm(rhs)), "default_tolerance_relative_residual",
                                     lambda: {**case, "rhs_scale": scale, "relative_residual": res / max(float(np.linalg.norm(rhs)), 1e-300)}, group=f"{formulation}/{backend}")
+                    if snap({k: v for k, v in optd.items() if not callable(v)}) != optd_before:
+                        R.count("observation:options_modified_by_library")
+            # the options (incl. the nested linear-solver options) are the caller's: unchanged after construction and solves
+            # (observation only - leaving arguments untouched is C17's business; here a modified dictionary matters
+            # through what it does to the next solver that is given the same dictionary, see the shared defaults below)
+            if snap({k: v for k, v in opt.items() if not callable(v)}) != opt_before:
+                R.count("observation:options_modified_by_library")
             # end-to-end: same fixed number of iterations under each (formulation, back-end)
             ok, wE = R.guarded("formulation_usable", lambda: darsia.WassersteinDistanceNewton(grid, None, dict(opt)), key=lambda e, w: key)
             if ok:
